@@ -1,9 +1,9 @@
 #!/bin/bash
 # Development aid: confirms a sub-agent's seeded change in its scratch worktree and, if it holds up,
 # stores it as /verif/seeded/<id>-<i>/ (patch.diff, demo_test.go, meta.json).
-# usage: seedverify.sh C04 1 [quicktests]     (worktree /tmp/seed/C04, results in /tmp/seed/C04-out)
+# usage: [SEEDBASE=/tmp/seed2 SEEDOFFSET=2] seedverify.sh C04 1 [pkgs]   (worktree $SEEDBASE/C04, results in $SEEDBASE/C04-out)
 set -u
-id=$1; i=$2; wt=/tmp/seed/$id; out=/tmp/seed/$id-out
+id=$1; i=$2; base=${SEEDBASE:-/tmp/seed}; wt=$base/$id; out=$base/$id-out
 export GOFLAGS=-mod=mod GOPROXY=off GOSUMDB=off GOTOOLCHAIN=local; unset GOWORK
 meta=$out/meta$i.json
 mod=$(jq -r .module $meta); demo_path=$(jq -r .demo_path $meta); demo_cmd=$(jq -r .demo_cmd $meta)
@@ -14,16 +14,16 @@ fail() { echo "SEEDVERIFY $id-$i REJECTED: $1"; clean; exit 1; }
 grep -q "_test.go" <(grep '^+++ ' $out/patch$i.diff) && fail "patch touches a test file"
 # 1. demo passes on the clean tree
 cp $out/demo${i}_test.go $wt/$demo_path
-(cd $wt/$mod && timeout 900 bash -c "$demo_cmd" >/tmp/seed/$id-out/verify$i.clean.log 2>&1) || fail "demo fails on the clean tree (see verify$i.clean.log)"
+(cd $wt/$mod && timeout 900 bash -c "$demo_cmd" >$out/verify$i.clean.log 2>&1) || fail "demo fails on the clean tree (see verify$i.clean.log)"
 # 2. demo fails with the patch
 git -C $wt apply $out/patch$i.diff || fail "patch does not apply"
 (cd $wt/$mod && go build ./... ) || fail "does not build"
-if (cd $wt/$mod && timeout 900 bash -c "$demo_cmd" >/tmp/seed/$id-out/verify$i.patched.log 2>&1); then fail "demo passes with the patch"; fi
+if (cd $wt/$mod && timeout 900 bash -c "$demo_cmd" >$out/verify$i.patched.log 2>&1); then fail "demo passes with the patch"; fi
 # 3. existing tests pass with the patch (demo removed)
 rm -f $wt/$demo_path
 pkgs=${3:-./...}
-(cd $wt/$mod && go test -vet=off -count=1 -timeout 25m ${SKIP:+-skip "$SKIP"} $pkgs >/tmp/seed/$id-out/verify$i.tests.log 2>&1) || { grep -E "^(--- FAIL|FAIL|panic)" /tmp/seed/$id-out/verify$i.tests.log | head; fail "existing tests fail with the patch (see verify$i.tests.log)"; }
+(cd $wt/$mod && go test -vet=off -count=1 -timeout 25m ${SKIP:+-skip "$SKIP"} $pkgs >$out/verify$i.tests.log 2>&1) || { grep -E "^(--- FAIL|FAIL|panic)" $out/verify$i.tests.log | head; fail "existing tests fail with the patch (see verify$i.tests.log)"; }
 clean
-dst=/verif/seeded/$id-$i
+dst=/verif/seeded/$id-$((i+${SEEDOFFSET:-0}))
 mkdir -p $dst && cp $out/patch$i.diff $dst/patch.diff && cp $out/demo${i}_test.go $dst/demo_test.go && cp $meta $dst/meta.json
 echo "SEEDVERIFY $id-$i CONFIRMED -> $dst"
